@@ -74,3 +74,18 @@ CHECKS["C12"] = dict(engine="sched", level="model_checking", ref="DESIGN.md 6 C1
     text="The harness is the scheduler: n step-wise decoders (real generators) are advanced one event at a time; all interleavings with at most p preemptions are explored depth-first and run to completion (quick: all ordered pairs of 6 messages at p<=1, the colliding pair at p<=2, a triple at p<=1; thorough: pairs of 8 messages at p<=2/3, triples at p<=2). In addition every history of <= 3 (thorough 4) operations over decode / warn-mode decode / events_to_obj(s) / obj_to_events / Canonical on the message alphabet. The alphabet collides on the one piece of shared state (the synthesized encrypted-parameter types): encrypted parameter areas of different commands, the same message twice, plain messages, streams. Oracle: every result == (Python equality, i.e. same synthesized classes) the first execution of the same operation in the same history, normalised results identical across histories; failing schedules are replayed to confirm determinism.",
     note="Granularity of a step is one yielded event (finer interleaving inside one next() cannot occur in a single-threaded process). The cache is reset between histories, never inside.",
     technique="preemption-bounded exhaustive exploration of interleavings of the real generators + exhaustive operation histories")
+ENGINES[0]["serves_properties"] += ["C16", "C18"]
+ENGINES[0]["path"] = "vlib/props/c16.py, c17.py, c18.py, c20.py"
+ENGINES[1]["serves_properties"] += ["C14"]
+CHECKS["C14"] = dict(engine="choice", level="model_checking", ref="DESIGN.md 6 C14, 4.5",
+    text="Event streams of the real decoder - strict decodes of every choice vector with <= k deviations per root (engine A) and warn-mode decodes of every size / value / cut / suffix fault on every base case - are rendered by both real printers. Oracle: row model (vlib/ref/rows.py): one row per structure / primitive event, one row per byte buffer holding all its bytes, one row per warning, bit rows for attribute words that are not list elements, event order, indentation = path depth, type / name / hex / value columns; the hex column concatenated equals the bytes of the decoded fields (the input when well-formed); the events printer prints one line per event with type, path and value. Neither printer may raise.",
+    note="D11 / D13 tolerances (warning next to a byte buffer; optional row for a non-byte list parent). Strict-mode structure roots at k<=1..2 (quick), frames k<=1.",
+    technique="stateless deviation-bounded exploration + exhaustive fault enumeration feeding the real printers, compared with a row model")
+CHECKS["C16"] = dict(engine="sweep", level="exploration", ref="DESIGN.md 6 C16, 5.5",
+    text="All 102 primitive types. Per value: int(), ==, hash, ordering, byte form (big-endian two's complement of the pinned width), validity (pinned set), str() and format() against the expected text (member name; range name + zero-padded hex offset). All values of 8-bit types (thorough: also all 65536 values of every 16-bit type); for wider types every interval end point +-2, members +-1, width limits, powers of two +-1, seed-rotated interior values. 19 binary operators x 4 operand orders x boundary pairs against plain int (type of the result included).",
+    note="exhaustive only for 8-bit (thorough: 16-bit) types; 32/64-bit domains at boundaries and representatives. Shift counts <= 64, exponents <= 8.",
+    technique="exhaustive sweep of small value domains + boundary enumeration, oracle from the pinned layout")
+CHECKS["C18"] = dict(engine="sweep", level="exploration", ref="DESIGN.md 6 C18",
+    text="Every low-12-bit value with bit 7 or bit 8 set, plus zero (3073 codes), alone, with single reserved high bits (quick: bits 12, 16, 31; thorough: each of 12..31) and with all reserved bits set. Oracle: format rules of the statement + name tables transcribed from TPM 2.0 Part 2 6.6.3 (vlib/pinned/tpm_rc.json): str() and format(); the bit rows overlay to the 32-bit value with no bit twice, and carry the same classification (parameter / session / handle number row with the same N, vendor bit, severity, code number and name).",
+    note="Unnamed numbers are expected as 'None' (pinned).",
+    technique="exhaustive sweep of the 12-bit code space against independently transcribed tables")
